@@ -9,6 +9,7 @@ CONSTANTS
   Faults = TRUE
   Membership = TRUE
   TrackLate = FALSE
+  Noise = TRUE
   Light = FALSE
 INVARIANT NoViolation
 INVARIANT HeapOrder
